@@ -16,11 +16,13 @@ import pv, mpi
 
 def write_cfg(name, P, J, R, live=False, boss=True):
     b = "TRUE" if boss else "FALSE"
+    # a pure master may be given any distinct job ids (constructor taking the list): model-check with sparse, unordered-looking ids
+    J = "{%s}" % ", ".join(str(i if boss else (7 * i + 3) % 11) for i in range(J))
     with open(os.path.join(pv.SPEC, name + ".cfg"), "w") as f:
         if live:
-            f.write("SPECIFICATION FairSpec\nCONSTANTS\n  P = %d\n  J = %d\n  R = %d\n  BossWorks = %s\nPROPERTY Termination\nCHECK_DEADLOCK FALSE\n" % (P, J, R, b))
+            f.write("SPECIFICATION FairSpec\nCONSTANTS\n  P = %d\n  JobIds = %s\n  R = %d\n  BossWorks = %s\nPROPERTY Termination\nCHECK_DEADLOCK FALSE\n" % (P, J, R, b))
         else:
-            f.write("SPECIFICATION Spec\nCONSTANTS\n  P = %d\n  J = %d\n  R = %d\n  BossWorks = %s\nINVARIANTS TypeOK ExactlyOnce AtMostOnce MapTruthful MapComplete RealJobs Drained StackSound FinishSafe\nCHECK_DEADLOCK FALSE\n" % (P, J, R, b))
+            f.write("SPECIFICATION Spec\nCONSTANTS\n  P = %d\n  JobIds = %s\n  R = %d\n  BossWorks = %s\nINVARIANTS TypeOK ExactlyOnce AtMostOnce MapTruthful MapComplete RealJobs Drained StackSound FinishSafe\nCHECK_DEADLOCK FALSE\n" % (P, J, R, b))
 
 
 def scenario(rng, J, R, seed):
@@ -39,11 +41,15 @@ def scenario_pure_master(rng, J, R, seed, joblist):
     """rank 0 is a pure master (MPIMaster(..., include_boss = false)); joblist selects the constructor taking the vector of job ids"""
     sc = scenario(rng, J, R, seed)
     sc.update({"mode": "dispatch_nomaster", "joblist": joblist, "boss": False})
+    if joblist and J and seed % 3:
+        # the list constructor takes the job ids themselves: a sparse selection (re-running a subset), not a permutation of 0..J-1
+        sc["ids"] = sorted(rng.sample(range(0, 40), J), key=lambda _: rng.random())
     return sc
 
 
-def harness_facts(run, P, J, R, boss=True):
+def harness_facts(run, P, J, R, boss=True, ids=None):
     """returns None or a description of a violated fact"""
+    ids = sorted(ids) if ids is not None else list(range(J))
     maps = []
     runs = {}
     for k, evs in enumerate(run.logs):
@@ -58,12 +64,14 @@ def harness_facts(run, P, J, R, boss=True):
                 return "rank %d: %s %s" % (k, e.get("e"), e.get("what", ""))
     for r in range(1, R + 1):
         jobs = sorted(j for (j, k) in runs.get(r, []))
-        if jobs != list(range(J)):
-            return "round %d executed jobs %s, expected each of 0..%d exactly once" % (r, jobs, J - 1)
+        if jobs != ids:
+            return "round %d executed jobs %s, expected each of %s exactly once" % (r, jobs, ids)
         ms = {m for (k, rr, m) in maps if rr == r and (boss or k == 0)}       # a pure master alone holds the map
         if len(ms) != 1 or len([1 for (k, rr, m) in maps if rr == r]) != P:
             return "round %d: returned maps differ between ranks or are missing: %s" % (r, sorted(ms)[:3])
         m = dict(list(ms)[0])
+        if sorted(m) != ids:
+            return "round %d: the returned map has keys %s, the jobs are %s" % (r, sorted(m), ids)
         for (j, k) in runs.get(r, []):
             if m.get(j) != k:
                 return "round %d: map says job %d ran on rank %s, it ran on rank %d" % (r, j, m.get(j), k)
@@ -125,12 +133,12 @@ def main():
                     c.violation("dispatch P=%d J=%d R=%d seed=%d %s (twice)" % (P, J, R, seed, what), replay, cls="termination" if run2.timed_out else "crash")
                     continue
                 run = run2
-            why = harness_facts(run, P, J, R, boss)
+            why = harness_facts(run, P, J, R, boss, sc.get("ids"))
             if why:
                 c.violation("dispatch P=%d J=%d R=%d seed=%d%s: %s" % (P, J, R, seed, "" if boss else " (pure master)", why), replay, cls="facts")
                 continue
             if P <= 8:
-                lines = mpi.dispatcher_trace(run, J, R, boss)
+                lines = mpi.dispatcher_trace(run, J, R, boss, sc.get("ids"))
                 ok, r = mpi.validate_dispatcher(lines, tag + "-trace", timeout=150)
                 if r.error and not ok and "timeout" in r.error:
                     # the search for an interleaving did not finish: inconclusive (neither accepted nor refuted); the harness-level
@@ -168,10 +176,10 @@ def replay(path):
     print("rc", run.rc, "timed_out", run.timed_out)
     sc = obj["scenario"]
     boss = sc.get("boss", True)
-    why = harness_facts(run, obj["P"], sc["J"], sc["R"], boss) if not run.timed_out else "timeout"
+    why = harness_facts(run, obj["P"], sc["J"], sc["R"], boss, sc.get("ids")) if not run.timed_out else "timeout"
     print("facts:", why)
     if why:
         return 1
-    ok, r = mpi.validate_dispatcher(mpi.dispatcher_trace(run, sc["J"], sc["R"], boss), "C16/replay-trace")
+    ok, r = mpi.validate_dispatcher(mpi.dispatcher_trace(run, sc["J"], sc["R"], boss, sc.get("ids")), "C16/replay-trace")
     print("trace accepted:", ok)
     return 0 if ok else 1
